@@ -148,6 +148,18 @@ func (e *Engine) mergeVals(pcs []T, vals []Val, hint string) Val {
 	return m
 }
 
+func isNumber(s string) bool {
+	if s == "" {
+		return false
+	}
+	for _, r := range s {
+		if r < '0' || r > '9' {
+			return false
+		}
+	}
+	return true
+}
+
 func sameVal(a, b Val) bool {
 	switch x := a.(type) {
 	case T:
@@ -222,6 +234,30 @@ func (e *Engine) merge(states []*State) *State {
 		pc = tOr(pc, s.pc)
 	}
 	out := &State{pc: e.name(pc, "pc"), cells: map[cellKey]Val{}, heaps: map[string]T{}, defers: map[int][]*deferEntry{}}
+	// allocation clock
+	out.tbase, out.toff = live[0].tbase, live[0].toff
+	sameT := true
+	for _, s := range live[1:] {
+		if s.tbase != out.tbase || s.toff != out.toff {
+			sameT = false
+		}
+	}
+	if !sameT {
+		ts := make([]Val, len(live))
+		for i, s := range live {
+			ts[i] = s.time()
+		}
+		mt := e.mergeVals(pcs, ts, "t").(T)
+		out.tbase, out.toff = mt.S, 0
+		if strings.HasPrefix(mt.S, "(") || isNumber(mt.S) {
+			// keep it a named term
+			e.nfresh++
+			n := fmt.Sprintf("t!%d", e.nfresh)
+			e.emit(fmt.Sprintf("(declare-const %s Int)", n))
+			e.emit(fmt.Sprintf("(assert (= %s %s))", n, mt.S))
+			out.tbase = n
+		}
+	}
 	// epoch: equal or fresh
 	out.epoch = live[0].epoch
 	for _, s := range live[1:] {
@@ -405,6 +441,7 @@ func (e *Engine) runBlocks(fr *Frame, start *ssa.BasicBlock, st *State, region m
 			}
 		}
 		fr.blockPC[b] = s.pc
+		fr.curBlock = b
 		push := func(to *ssa.BasicBlock, ns *State) {
 			if ns.pc.S == "false" {
 				return
@@ -472,6 +509,22 @@ func (e *Engine) loopClauses(fr *Frame, head *ssa.BasicBlock) (invs, decs []*Cla
 	return
 }
 
+// loopLocalWrites: the contract says `loop N localwrites`: writes through pointers that change
+// from iteration to iteration only reach objects allocated by this function (this is checked,
+// obligation kind loop-frame); in exchange objects that existed at entry are framed.
+func (e *Engine) loopLocalWrites(fr *Frame, head *ssa.BasicBlock) bool {
+	if fr.contract == nil {
+		return false
+	}
+	ord := e.loops(fr.fn).ordinal[head]
+	for _, cl := range fr.contract.Clauses {
+		if cl.Kind == "localwrites" && cl.Loop == ord {
+			return true
+		}
+	}
+	return false
+}
+
 // enterLoop: assert invariants, havoc what the loop modifies, assume invariants.
 func (e *Engine) enterLoop(fr *Frame, head *ssa.BasicBlock, s *State) *State {
 	li := e.loops(fr.fn)
@@ -482,10 +535,12 @@ func (e *Engine) enterLoop(fr *Frame, head *ssa.BasicBlock, s *State) *State {
 		e.oblige(s, "inv-init", fmt.Sprintf("loop%d:%s", ord, clauseLabel(cl)), g, head.Instrs[0].Pos())
 	}
 	// modified set by dry run
-	nBefore := e.nfresh
-	cells, heaps, all, lf := e.loopModified(fr, head, s)
+	timeBefore := s.time().S
+	cells, heaps, all, lf, lcond := e.loopModified(fr, head, s)
 	if all {
 		e.havocAll(s)
+	} else {
+		e.bumpTime(s)
 	}
 	for _, k := range cells {
 		old := s.cells[k]
@@ -500,16 +555,31 @@ func (e *Engine) enterLoop(fr *Frame, head *ssa.BasicBlock, s *State) *State {
 		nv := e.fresh(e.heapSort[h], "lh_"+h)
 		s.heaps[h] = nv
 		e.heapWf(s, nv)
+		e.heapOlderThanNow(s, nv)
 		// loop frame: objects that existed before the loop and are not written by it keep their value
 		if bases, ok := lf[h]; ok && !all && strings.HasPrefix(nv.Sort, "(Array Ref ") {
-			cond := fmt.Sprintf("(<= (newid x) %d)", nBefore)
+			cond := fmt.Sprintf("(< (newid x) %s)", timeBefore)
+			if lcond[h] && !e.loopLocalWrites(fr, head) {
+				e.recWild(h)
+				continue
+			}
+			if lcond[h] {
+				cond = "(= (newid x) 0)"
+				if fr.condFrames[head] == nil {
+					fr.condFrames[head] = map[string][]string{}
+				}
+				fr.condFrames[head][h] = bases
+				if e.collect != nil {
+					e.recWild(h) // an enclosing loop cannot rely on this inner frame
+				}
+			}
 			for _, b := range bases {
 				cond += fmt.Sprintf(" (not (= x %s))", b)
 			}
 			e.emit(fmt.Sprintf("(assert (forall ((x Ref)) (! (=> (and %s) (= (select %s x) (select %s x))) :pattern ((select %s x)))))", cond, nv.S, pre.S, nv.S))
 			if e.collect != nil {
 				for _, b := range bases {
-					e.recStore(h, T{b, sRef})
+					e.recStore(s, h, T{b, sRef})
 				}
 			}
 		} else {
@@ -585,7 +655,7 @@ func clauseLabel(cl *Clause) string {
 
 // loopModified runs the loop body once from a fully havocked state with all output
 // discarded and reports which cells and heaps differ on a back edge.
-func (e *Engine) loopModified(fr *Frame, head *ssa.BasicBlock, s *State) (cells []cellKey, heaps []string, all bool, frames map[string][]string) {
+func (e *Engine) loopModified(fr *Frame, head *ssa.BasicBlock, s *State) (cells []cellKey, heaps []string, all bool, frames map[string][]string, cond map[string]bool) {
 	li := e.loops(fr.fn)
 	e.dry++
 	defer func() { e.dry-- }()
@@ -660,6 +730,7 @@ func (e *Engine) loopModified(fr *Frame, head *ssa.BasicBlock, s *State) (cells 
 	sort.Strings(heaps)
 	// loop frames: classify the written objects
 	frames = map[string][]string{}
+	cond = map[string]bool{}
 	if !col.wild["*"] {
 		markOf := map[string]cellKey{}
 		for k, m := range marks {
@@ -678,8 +749,11 @@ func (e *Engine) loopModified(fr *Frame, head *ssa.BasicBlock, s *State) (cells 
 					if isInLoopAlloc(b.S, n0) {
 						continue // object allocated by the loop body: not an old object
 					}
-					ok = false
-					break
+					// a base that changes from iteration to iteration: the frame is assumed for
+					// objects that existed at function entry only, and every such write is checked
+					// (obligation kind loop-frame) to target an object allocated by this function
+					cond[h] = true
+					continue
 				}
 				if !seen[txt] {
 					seen[txt] = true
